@@ -13,11 +13,18 @@ DEMO=$(git ls-files --others --exclude-standard | grep '_test.go$' | head -1)
 [ -f SEEDED.md ] && cp SEEDED.md $D/SEEDED.md
 export GOPROXY=off
 DEMODIR=$(dirname "$WT/$DEMO")
-suite=$( (cd $WT && go test -vet=off -count=1 -skip 'TestSeededDemo$' ./... 2>&1; cd $WT/internal/app && go test -vet=off -count=1 ./... 2>&1) | grep -c -E '^(FAIL|---.FAIL)')
-demo_with=$(cd $DEMODIR && go test -vet=off -count=1 -run 'TestSeededDemo$' . 2>&1 | grep -c -E '^(FAIL|--- FAIL)')
+# a demo under wasm/ is a js/wasm test: run it under node
+DEMOENV=""; DEMOEXEC=""
+case "$DEMO" in wasm/*)
+  WX=$(mktemp /var/tmp/wasm_exec.XXXXXX.sh); printf '#!/bin/sh\nexec node "$(go env GOROOT)/lib/wasm/wasm_exec_node.js" "$@"\n' > $WX; chmod +x $WX
+  DEMOENV="GOOS=js GOARCH=wasm"; DEMOEXEC="-exec=$WX";;
+esac
+suite=$( (cd $WT && go test -vet=off -count=1 -skip 'TestSeededDemo$' ./... 2>&1; cd $WT/internal/app && go test -vet=off -count=1 -skip 'TestSeededDemo$' ./... 2>&1) | grep -c -E '^(FAIL|---.FAIL)')
+demo_with=$(cd $DEMODIR && env $DEMOENV go test $DEMOEXEC -vet=off -count=1 -run 'TestSeededDemo$' . 2>&1 | grep -c -E '^(FAIL|--- FAIL)')
 git stash -q
-demo_without=$(cd $DEMODIR && go test -vet=off -count=1 -run 'TestSeededDemo$' . 2>&1 | grep -c -E '^(FAIL|--- FAIL)')
+demo_without=$(cd $DEMODIR && env $DEMOENV go test $DEMOEXEC -vet=off -count=1 -run 'TestSeededDemo$' . 2>&1 | grep -c -E '^(FAIL|--- FAIL)')
 git stash pop -q
+[ -n "${WX:-}" ] && rm -f $WX
 echo "suite_failures_with_change=$suite demo_fails_with=$demo_with demo_fails_without=$demo_without"
 res=""
 EVBAK=$(mktemp -d /var/tmp/verif-evbak.XXXXXX); cp -a /verif/evidence/. $EVBAK/ 2>/dev/null
